@@ -6,12 +6,14 @@ SAME_NAME = 'len(list(filter(lambda o: o.name == self.name, {})))'
 CONTRACTS = {
  'EFLRSet.get_all_eflr_items': dict(
     props=['C07'], self_fields={'_eflr_item_list': 'seq[ref]'}, params={}, returns='seq[ref]',
-    ensures=[('copy-of-the-list', 'result == self._eflr_item_list')]),
+    ensures=[('copy-of-the-list', 'result == self._eflr_item_list'),
+             # callers test the result for emptiness (`if not items`): it must be a list, whose truth value says whether there are objects
+             ('its-truth-value-tells-whether-the-set-has-objects', 'bool(result) == (len(self._eflr_item_list) > 0)')]),
  'EFLRSet.n_items': dict(
     props=['C07', 'C17'], self_fields={'_eflr_item_list': 'seq[ref]'}, params={}, returns='int',
     ensures=[('count', 'result == len(self._eflr_item_list)')]),
  'EFLRItem._compute_copy_number': dict(
-    props=['C07'], self_class='ZoneItem',
+    props=['C07', 'C12', 'C16'], self_class='ZoneItem',
     self_fields={'name': 'str', '_parent': SET_MODEL}, params={}, returns='int',
     ref_fields=REF_FIELDS,
     ensures=[('copy-number-is-the-number-of-other-same-named-objects-of-the-set',
@@ -34,7 +36,7 @@ CONTRACTS.update({
     ensures=[('appended-last', 'self._eflr_item_list == old(self._eflr_item_list) + [child]')],
     exc_ensures=[('rejected-child-not-registered', 'self._eflr_item_list == old(self._eflr_item_list)')]),
  'EFLRItem.__init__[ZoneItem]': dict(
-    target='EFLRItem.__init__', self_class='ZoneItem', props=['C20', 'C07', 'C17'], globals=GC,
+    target='EFLRItem.__init__', self_class='ZoneItem', props=['C20', 'C07', 'C17', 'C12'], globals=GC,
     self_fields={a: {'cls': 'Attribute', 'fields': {'parent_eflr': 'none'}} for a in SCHEMAS['ZoneItem']},
     params={'name': 'str', 'parent': LIVE_SET, 'origin_reference': 'int?', 'kwargs': {}}, returns='none',
     ref_fields=REF_FIELDS, requires=['not in_seq(self, parent._eflr_item_list)'],
